@@ -110,10 +110,8 @@ impl Engine for OwnEngine {
                 if out != want && out != "absent" && out != "bad-op" { rec.oracle_fail(format!("type-erasure-lies `{line}` -> {out}, expected {want}")); }
                 continue;
             }
-            let l2 = "ledger".to_string();
-            let lo = wx.op(&l2);
-            rec.op(l2, lo);
             check_ledger(&wx, rec, line);
+            if wx.unspecified { rec.stat("truncated/new-asset-loaded-during-a-pass"); break; }
         }
         // the cache is dropped: everything that is still stored is dropped, exactly once
         drop(wx);
